@@ -23,7 +23,8 @@ Step(e) ==
       [] e.k = "unit"    -> WithUnit(e.u)
       [] e.k = "prec"    -> ChoosePrecision(e.n)
       [] e.k = "format"  -> Format
-      [] e.k = "uncert"  -> ChooseUncert(D(e.xe), e.p)
+      [] e.k = "uncert"  -> ChooseUncert(D(e.xe), e.p, e.src)
+      [] e.k = "convert" -> ConvertTo(e.from, e.to)
       [] e.k = "formatu" -> FormatUncert
       [] e.k = "roman"   -> RomanChoose(e.n)
       [] OTHER           -> FALSE
@@ -32,8 +33,8 @@ ObsClause(o) ==
     IF mode = "roman" THEN (IF RomanOK(o.syms, rn) THEN "" ELSE "roman-value")
     ELSE IF ~o.lexed THEN "not-number-then-unit"
     ELSE IF o.unit # unit THEN "unit-text"
-    ELSE IF mode = "number" THEN NumberClause(o, x, n, TRUE)
-    ELSE IF mode = "uncert" THEN (IF o.hasu THEN UncertClause(o, x, xe, p, TRUE) ELSE "no-uncertainty-shown")
+    ELSE IF mode = "number" THEN NumberClause(o, Shown(x), n, TRUE)
+    ELSE IF mode = "uncert" THEN (IF o.hasu THEN UncertClause(o, Shown(x), Shown(xe), p, TRUE) ELSE "no-uncertainty-shown")
     ELSE "mode"
 
 ResultOK(e) ==
